@@ -260,7 +260,42 @@ impl Gen {
     }
 
     /// a year: of a generated day, or a boundary
+    /// a year that a packed or truncated comparison would confuse with year `y`: `y` shifted by
+    /// 2^k, by a multiple of 2^32 / c for a small multiplier c (the wrap-around classes of
+    /// `y * c` in 32 bits), or with its sign or low bits changed
+    pub fn alias_year(&mut self, y: i64) -> i64 {
+        self.hit("y:alias");
+        let a = match self.rng.below(4) {
+            0 => y + (1i64 << self.rng.range(4, 31)) * *self.rng.pick(&[-1i64, 1]),
+            1 => {
+                let c = *self.rng.pick(&[2i64, 4, 8, 12, 16, 32, 50, 64, 100, 128, 256, 365, 366, 400, 512, 1024, 1461, 4096, 65536]);
+                let k = self.rng.range(1, c.min(64)) * *self.rng.pick(&[-1i64, 1]);
+                y + (k * (1i64 << 32)) / c + self.rng.range(-1, 1)
+            }
+            2 => -y + self.rng.range(-1, 1),
+            _ => y ^ (1i64 << self.rng.range(0, 30)),
+        };
+        if (I32_MIN..=I32_MAX).contains(&a) {
+            a
+        } else {
+            // fold back into the type the way a 32-bit register would
+            ((a + (1i64 << 31)).rem_euclid(1i64 << 32)) - (1i64 << 31)
+        }
+    }
+
     pub fn year(&mut self, oc: &OCal) -> i64 {
+        if self.rng.chance(1, 12) {
+            // an alias of a year the calendar treats specially (the years around its reformation)
+            let y0 = match *oc {
+                OCal::Reforming(r) => {
+                    let (a, ..) = oracle::label(Rule::Julian, r - 1);
+                    let (b, ..) = oracle::label(Rule::Gregorian, r);
+                    *self.rng.pick(&[a, b, (a + b) / 2])
+                }
+                _ => *self.rng.pick(&[0i64, 1582, 2000, -4712]),
+            };
+            return self.alias_year(y0);
+        }
         match self.rng.below(10) {
             0 => {
                 self.hit("y:dict");
@@ -349,6 +384,25 @@ impl Gen {
     /// never produces — one end drained completely and then the other end probed, an exact
     /// split of the items between the two ends followed by probes of both, long runs
     pub fn ops_for(&mut self, maxlen: u64, size: u64) -> String {
+        let base = self.ops_base(maxlen, size);
+        if self.rng.chance(1, 2) {
+            return base;
+        }
+        // the methods the Iterator traits provide on top of next / next_back: nth, nth_back,
+        // count, last, rev — an implementation may override any of them
+        self.hit("ops:provided-methods");
+        let mut out = String::new();
+        for ch in base.chars() {
+            if self.rng.chance(1, 5) {
+                out.push(*self.rng.pick(&['n', 'm', 'N', 'M', 'c', 'z', 'r']));
+            }
+            out.push(ch);
+        }
+        out.push(*self.rng.pick(&['n', 'N', 'c', 'z', 'r', 'l']));
+        out
+    }
+
+    fn ops_base(&mut self, maxlen: u64, size: u64) -> String {
         let probes = |g: &mut Self| -> String {
             let k = 1 + g.rng.below(4);
             (0..k).map(|_| *g.rng.pick(&['f', 'b', 'l'])).collect()
@@ -621,7 +675,15 @@ pub fn emit(prop: &str, g: &mut Gen, out: &mut Vec<String>) {
                         }
                     }
                     _ => {
-                        let (c2, oc2) = if g.rng.chance(1, 2) { (ct.clone(), oc) } else { g.cal() };
+                        let (c2, oc2) = match (g.rng.below(6), oc) {
+                            (0..=1, _) => (ct.clone(), oc),
+                            // a reforming calendar a few days away: same year, same month, same gap kind
+                            (2..=3, OCal::Reforming(r)) => {
+                                let r2 = clamp(r + *g.rng.pick(&[-13i64, -2, -1, 1, 2, 3, 10, 13, 31, 365, 366]), R_MIN, R_MAX);
+                                (format!("R{r2}"), OCal::Reforming(r2))
+                            }
+                            _ => g.cal(),
+                        };
                         let j2 = if g.rng.chance(1, 3) { j } else if g.rng.chance(1, 2) { clamp(j + g.rng.range(-2, 2), I32_MIN, I32_MAX) } else { g.jdn(&oc2) };
                         push(out, format!("cmp_date {ct} {j} {c2} {j2}"));
                         push(out, format!("cmp_cal {ct} {c2}"));
@@ -730,7 +792,7 @@ pub fn emit(prop: &str, g: &mut Gen, out: &mut Vec<String>) {
                     16 => "L".into(),
                     17 => "E".into(),
                     18 => (*g.rng.pick(&["A", "a"])).into(),
-                    19 => (*g.rng.pick(&["Df", "Dl"])).into(),
+                    19 => (*g.rng.pick(&["Df", "Dl", "L3", "L9", "E3", "E9", "A3", "A9", "a3", "a9", "LS", "AS"])).into(),
                     20 => "F".into(),
                     21 => "f".into(),
                     6 => "y".into(),
@@ -759,6 +821,7 @@ pub fn emit(prop: &str, g: &mut Gen, out: &mut Vec<String>) {
             let (ct, oc) = g.cal();
             let y = g.year(&oc);
             push(out, format!("year {ct} {y}"));
+            push(out, format!("yearsum {ct} {y}"));
             if let OCal::Reforming(r) = oc {
                 // every year from that of R-1 to that of R (capped)
                 let (y0, ..) = oracle::label(Rule::Julian, r - 1);
@@ -772,7 +835,10 @@ pub fn emit(prop: &str, g: &mut Gen, out: &mut Vec<String>) {
         }
         "C09" => {
             let (ct, oc) = g.cal();
-            let (y, m, d) = g.ymd(&oc);
+            let (mut y, m, d) = g.ymd(&oc);
+            if g.rng.chance(1, 10) {
+                y = g.alias_year(y);
+            }
             push(out, format!("shape {ct} {y} {m}"));
             push(out, format!("shapeq {ct} {y} {m} {d}"));
             push(out, format!("shapeq {ct} {y} {m} {}", g.rng.range(0, 33)));
@@ -792,12 +858,19 @@ pub fn emit(prop: &str, g: &mut Gen, out: &mut Vec<String>) {
                 2 => {
                     let k = *g.rng.pick(&["later", "earlier", "and_later", "and_earlier"]);
                     push(out, format!("iter {k} {ct} {j} {}", g.rng.below(30)));
+                    // the same iterators driven through the provided methods (nth, skip/step_by)
+                    let n = 1 + g.rng.below(6);
+                    let ops: String = (0..n).map(|_| *g.rng.pick(&['x', 'x', 'n', 'm', 'k', 'S'])).collect();
+                    push(out, format!("iterx {k} {ct} {j} {ops}x"));
                 }
                 _ => {
                     // into the range limits
                     let k = *g.rng.pick(&["later", "earlier", "and_later", "and_earlier"]);
                     let j = if k.ends_with("later") { I32_MAX - g.rng.range(0, 5) } else { I32_MIN + g.rng.range(0, 5) };
                     push(out, format!("iter {k} {ct} {j} 8"));
+                    // a jump past the limit, then next(): the iterator has ended and stays ended
+                    let ops: String = (0..3).map(|_| *g.rng.pick(&['x', 'n', 'm', 'k', 'S'])).collect();
+                    push(out, format!("iterx {k} {ct} {j} {ops}xx"));
                 }
             }
         }
@@ -854,7 +927,14 @@ pub fn emit(prop: &str, g: &mut Gen, out: &mut Vec<String>) {
             match g.rng.below(6) {
                 0 => push(out, format!("unix {t}")),
                 1 => {
-                    let (ct, _) = g.cal();
+                    let (ct, oc) = g.cal();
+                    // mostly an instant of a day that matters to this calendar (its reformation
+                    // window, month and year ends, the range limits)
+                    let t = if g.rng.chance(2, 3) {
+                        (g.jdn(&oc) - 2440588) * 86400 + *g.rng.pick(&[0i64, 1, 43200, 86399, 86399])
+                    } else {
+                        t
+                    };
                     push(out, format!("at_unix {ct} {t}"));
                 }
                 2 => {
@@ -876,7 +956,13 @@ pub fn emit(prop: &str, g: &mut Gen, out: &mut Vec<String>) {
                     if g.rng.chance(1, 2) {
                         push(out, format!("system {b} {secs} {nanos}"));
                     } else {
-                        let (ct, _) = g.cal();
+                        let (ct, oc) = g.cal();
+                        let (b, secs) = if g.rng.chance(1, 2) {
+                            let t = (g.jdn(&oc) - 2440588) * 86400 + *g.rng.pick(&[0i64, 1, 43200, 86399]);
+                            if t < 0 { ("b", t.unsigned_abs()) } else { ("a", t as u64) }
+                        } else {
+                            (b, secs)
+                        };
                         push(out, format!("at_system {ct} {b} {secs} {nanos}"));
                     }
                 }
